@@ -673,6 +673,7 @@ func vfExecProd(c *vfProdCase) *vfProdRun {
 		}
 		if !run.waitQuiescent(func() bool { return len(pendingIdx()) == 0 }, nil) {
 			run.unflushed = pendingIdx()
+			run.stacks = vfcore.Stacks()
 		}
 	}
 	if c.FlushProbe && !c.flushGuaranteed() {
@@ -707,6 +708,7 @@ func vfExecProd(c *vfProdCase) *vfProdRun {
 			cc := &c.Conf
 			if (cc.FlushMessages > 0 && len(unsent) >= nb*(cc.FlushMessages-1)+1) || (cc.FlushBytes > 0 && kv >= nb*cc.FlushBytes) {
 				run.unflushed = unsent
+				run.stacks = vfcore.Stacks()
 			}
 		}
 		if run.abandoned {
@@ -912,8 +914,8 @@ func (run *vfProdRun) historyForFailure() interface{} {
 	}
 	if run.stacks != "" {
 		s := run.stacks
-		if len(s) > 30000 {
-			s = s[:30000]
+		if len(s) > 300000 {
+			s = s[:300000]
 		}
 		out["goroutines"] = s
 	}
